@@ -19,6 +19,7 @@ import Dawgs.Model.C13Lts
                                         (one goroutine adds the pairs lo+2k, lo+2k+1 to wrapper o, one Add call per pair, while another
                                          keeps merging x.Or(o); torn = merges after which x held exactly one element of a pair)
   conc <x> t0-ops / t1-ops / …       -> ok <card> <rle> cadd=<n>   (one goroutine per op list; order-independent mixes)
+  comm <v> or:<a>,<b> … and:<c>,… …   -> true|false   (commutative.go: CommutativeDuplexes{or…, and…}.Contains(v))
 Any call that can never return (blocked in a mutex) answers `deadlock`.
 Sets are printed run-length encoded: `[0-4999,65536,70000-70010]`. -/
 namespace Driver.C13
@@ -112,6 +113,16 @@ def concRun (lookup : String → Option Prov) (self : String) (w : Width) (fixed
   toks.foldlM (fun (acc : S × Nat) tok =>
     if tok == "/" then some acc else (concTok lookup self w fixed snap acc.1 tok).map (fun r => (r.1, acc.2 + r.2))) (s, 0)
 
+/-- `or:a,b` / `and:c` groups of a `comm` line, resolved to sets -/
+def commGroups (lookup : String → Option S) (toks : List String) : Option (List (List S) × List (List S)) :=
+  toks.foldlM (fun (acc : List (List S) × List (List S)) tok =>
+    match tok.splitOn ":" with
+    | [k, names] =>
+      match (names.splitOn ",").mapM lookup with
+      | some sets => if k == "or" then some (acc.1 ++ [sets], acc.2) else if k == "and" then some (acc.1, acc.2 ++ [sets]) else none
+      | none => none
+    | _ => none) ([], [])
+
 /-- outside the exactly characterised domain (run containers): iterate-while-remove over a receiver, or the native
 in-place Xor, when a chunk has ever been completely full -/
 def unmodelled (fixed snap : Bool) (p : Prov) (op : BinOp) (o : Operand) (operandEverFull : Bool) : Bool :=
@@ -197,6 +208,9 @@ def step (st : St) (ts : List String) : St × String :=
       | some (s', n) => (st.put x (refresh { p with set := s' }), s!"ok {obs s'} cadd={n}")
       | none => (st, "bad-op")
     | none => (st, "bad-op")
+  | "comm" :: v :: toks => match v.toNat?, commGroups (fun n => (st.get n).bind (fun p => if p.wrapped && p.locked then none else some p.set)) toks with
+    | some v, some (ors, ands) => (st, toString (commDuplexesContains ors ands v))
+    | _, _ => (st, "bad-op")
   | ["nd", o, x] => match parseOp o, st.get x with
     | some op, some p =>
       match p.binop st.fixed st.snap op .nonDuplex with
